@@ -724,6 +724,13 @@ def run(ck):
                 ck.witness("C09:switch-is-not-a-plain-module-attribute", "at run time neuroml.build_time_validation.ENABLED is not a bool "
                            "in the dictionary of a plain module reached through the package attribute: %s" % rt, input={},
                            expected="a plain module-level bool", observed=rt)
+    nsub = 6
+    keys = ("code", "ret", "ret_cls", "ret_valid", "switch", "getter", "switch_unchanged", "disabled", "seen", "valid")
+    c10.interpreter_configurations(
+        ck, "c09_impl.py", {"order": order, "sessions": sessions[:nsub]}, {"results": results[:nsub]},
+        lambda o: [[[c10.canon_code(r_.get(k)) if k == "code" else r_.get(k) for k in keys] + [r_.get("harness_error")] for r_ in sess_]
+                   for sess_ in o["results"]],
+        lambda i: {"session": [{k_: o_.get(k_) for k_ in ("op", "cls", "kw", "validate", "form", "via", "thread")} for o_ in sessions[i]["ops"]][:6]})
     if initial is not True:
         ck.witness("C09:default-switch-off", "build-time validation is not enabled by default", input={})
     evaluate(ck, sessions, results, initial)
